@@ -40,4 +40,5 @@ Fixpoint no_continue_through_switch (insw tokl : bool) (s : stmt) : bool :=
 Definition quirk_free (k : kernel) : Prop :=
   k_ret k <> RVoidPtr                                       (* not `void *` *)
   /\ forallb clean_kind (flat_map kinds (k_body k)) = true
+  /\ depth_rule (k_body k) = true                            (* at most 3 nested @outer / @inner *)
   /\ forallb (no_continue_through_switch false false) (k_body k) = true.
